@@ -280,10 +280,13 @@ fn judge(case: &Case, d: &SimDaemon, marks: &[Mark], ctx: &mut CaseCtx) {
         names.push(set);
     }
     let is_announcement = |p: &Sent, i: usize| -> bool {
+        let Some(txt) = p.m.answers.iter().find(|r| r.rtype == T_TXT && r.ttl > 0 && wire::txt_has(r, &id_attr(i))) else {
+            return false;
+        };
         p.m.is_response()
-            && p.m.answers.iter().any(|r| r.rtype == T_TXT && r.ttl > 0 && wire::txt_has(r, &id_attr(i)))
-            && p.m.answers.iter().any(|r| r.rtype == T_PTR && r.ttl > 0)
-            && (!p.solicited || p.m.answers.iter().any(|r| r.rtype == T_SRV))
+            && p.m.answers.iter().any(|r| r.rtype == T_PTR && r.ttl > 0 && wire::ptr_target(r) == Some(&txt.name))
+            && p.m.answers.iter().any(|r| r.rtype == T_SRV && r.name == txt.name)
+            && (!p.solicited || p.m.additionals.is_empty())
     };
     // model of registrations
     struct Reg {
